@@ -398,8 +398,7 @@ ADD_TEXT["C10"] += (" Round 7: five scenarios of clients that do something odd t
                     "profile, oracle clause).")
 ADD_TEXT["C07"] = ADD_TEXT.get("C07", "") + (" Round 7: sender='<well-known name>' and destination='<well-known name>' mean the name's present owner (sender_rule_needs_the_owner, "
                     "waiter_does_not_match_sender_rule, destination_rule_needs_the_owner); scenarios with a second connection waiting in the name's queue and broadcasting.")
-ADD_TEXT["C12"] = ADD_TEXT.get("C12", "") + (" Round 7: dbus_message_set_serial keeps a valid message valid (setSerial_keeps_valid, setSerial_roundtrip; the same statement for field edits is not proved: "
-                   "the correspondence covers it); the check sweeps allocation failures over its own edits (a failed edit leaves the bytes as they were).")
+ADD_TEXT["C12"] = ADD_TEXT.get("C12", "") + (" Round 7: dbus_message_set_serial keeps a valid message valid (setSerial_keeps_valid, setSerial_roundtrip; field edits: see round 8); the check sweeps allocation failures over its own edits (a failed edit leaves the bytes as they were).")
 ADD_TEXT["C02"] = ADD_TEXT.get("C02", "") + (" Round 7: the big-endian image of every built message is also parsed and serialised again without anything reading it in between (reading converts a message "
                    "to native order and would hide a byte-order slip on the sending path).")
 ADD_TEXT["C05"] = ADD_TEXT.get("C05", "") + (" A message is answered by the bus at most once: bus-made errors are counted per sender and serial over the whole trace.")
@@ -426,6 +425,14 @@ NEW_NOTE["C07"] = ("Trusted base: Lean 4.33 kernel and the axioms printed by #pr
                    "gen/tab_*.c+render.py+gcc; K-tie harness, generators and the compiled Lean driver. Modelled, not verified: every line of C; heap safety/termination are sanitizer "
                    "observations on the generated inputs. The cleanup of rules at disconnect (incl. the recorded GC quirk) is compared against the daemon on every history; the per-key value "
                    "checks are the C16 predicates (proved equal to the grammars there); strtoul's reading of the N in argN is modelled, not specified.")
+ADD_TEXT["C12"] += (" Round 8: 'leaves a message whose serialised form is well-formed, fully valid as long as the mandatory fields are still present' is now a theorem for every edit and every "
+                    "sequence of edits (edit_keeps_valid, edits_keep_valid, edits_roundtrip over set_keeps_valid, delete_keeps_valid, removeUnknown_keeps_valid, setSerial_keeps_valid): under "
+                    "the API's own preconditions (EditOK: the new field is one the setter admits - known code other than SIGNATURE/UNIX_FDS, prescribed type, valid contents -, the serial is not "
+                    "0, a deletion leaves the mandatory fields, and after an edit that lengthens a field the message is still within the size limits) the edited message is WFMsg, hence "
+                    "serialises to bytes the loader accepts and reads back as exactly the edited message. Proofs/EditWF.lean carries the argument: encoded lengths and well-formedness depend "
+                    "on the offset only modulo 8 (encode_length_mod8, wfVal_mod8), a header field is a self-aligning struct and so well-formed wherever it stands (wfVal_fieldArray_iff), "
+                    "the loader's per-field loop is a property of each field plus distinct known codes (checkFields_iff), and removing fields never lengthens the field array "
+                    "(fieldsLen_sublist) - so delete and strip-unknown need no size hypothesis.")
 for _k, _v in ADD_TEXT.items():
     CHECKS[_k]["text"] = CHECKS[_k]["text"].rstrip() + _v
 for _k, _v in NEW_NOTE.items():
